@@ -11,6 +11,8 @@ import CC.JH.C08
 import CC.Groestl.C08
 import CC.Blake.C08
 import CC.Skein.C08
+import CC.Buffer.Src
+import CC.Buffer.SrcTraits
 namespace CC.Thm.C08
 open CC CC.Buffer
 
@@ -640,5 +642,138 @@ example :
       (fun o => match o with | some (.ok d) => hexOfBytes d | _ => "")
     = ["", "", "", "0b98dcd198ea0e50a7a244c444e25c23da30c10fc9a1f270a6637f1f34e67ed2",
        "c8877087da56e072870daa843f176e9453115929094c3a40c463a196c29bf7ba"] := by decide +kernel
+
+/-! ## SOURCE TIE: the third-party buffer code under all fifteen hashes -/
+
+/-- **Source tie, `block-buffer` / `block-padding`.**  The model functions of `CC.Buffer.BlockBuffer` on which every
+    theorem above (and the hash models of C04–C07) rests are hand transcriptions of a crate OUTSIDE `/repo`.  On every run
+    tools/inventory_blockbuffer.py locates the crate versions pinned in `/repo/Cargo.lock`, translates each method of
+    `impl BlockBuffer` from that source for a symbolic block size `b`, buffer, cursor, input and closure (panics — usize
+    underflow / overflow, slice bounds, `copy_from_slice` length mismatch, `split_at`, `chunks_exact(0)`, the array
+    conversion — as guards; `block-padding`'s `ZeroPadding` / `Iso7816` inlined behind `pad_with`) into
+    `CC.Gen.BlockBufferSrc`, and this theorem states: for EVERY state inside the struct invariant the model documents
+    (`buf.length = b`, `pos ≤ b`, `0 < b`; `b < 2^64` since it is a `usize`; `8 ≤ b` / `16 ≤ b` for the length paddings), every
+    input and every closure, the translated method hits no guard and returns exactly what the model function returns.
+    `len64_padding_le` / `len128_padding_be` (no users, no model function) are tied to the shape `CC.Src.lenPadding` of which
+    `len64PaddingBe` is an instance.  Individual facts: `CC.Src.src_bb_*` (lean/CC/Buffer/Src.lean). -/
+theorem source_blockbuffer_match :
+    CC.Gen.BlockBufferSrc.blockbuffer_errors = [] ∧
+    (∀ (b : Nat) (s : BB), CC.Gen.BlockBufferSrc.bb_size b s.buf s.pos = .ok b) ∧
+    (∀ (b : Nat) (s : BB), CC.Gen.BlockBufferSrc.bb_position b s.buf s.pos = .ok s.pos) ∧
+    (∀ (b : Nat) (s : BB), s.pos ≤ b → CC.Gen.BlockBufferSrc.bb_remaining b s.buf s.pos = .ok (b - s.pos)) ∧
+    (∀ (b : Nat) (s : BB), CC.Gen.BlockBufferSrc.bb_reset b s.buf s.pos = .ok (s.resetKeep.buf, s.resetKeep.pos)) ∧
+    (∀ {σ : Type} (b : Nat) (s : BB) (input : List (BitVec 8)) (f : σ → List (BitVec 8) → σ) (acc : σ),
+      0 < b → s.buf.length = b → s.pos ≤ b → b < 2 ^ 64 →
+      CC.Gen.BlockBufferSrc.bb_input_block b s.buf s.pos input f acc = CC.Src.bbOut (inputBlock b s input f acc)) ∧
+    (∀ {σ : Type} (b : Nat) (s : BB) (input : List (BitVec 8)) (f : σ → List (BitVec 8) → σ) (acc : σ),
+      0 < b → s.buf.length = b → s.pos ≤ b → b < 2 ^ 64 →
+      CC.Gen.BlockBufferSrc.bb_input_lazy b s.buf s.pos input f acc = CC.Src.bbOut (inputLazy b s input f acc)) ∧
+    (∀ {σ : Type} (b : Nat) (s : BB) (n : Nat) (f : σ → List (BitVec 8) → σ) (acc : σ),
+      0 < b → s.buf.length = b → s.pos ≤ b → b < 2 ^ 64 →
+      CC.Gen.BlockBufferSrc.bb_digest_pad b s.buf s.pos n f acc = CC.Src.bbOut (digestPad b s n f acc)) ∧
+    (∀ {σ : Type} (b : Nat) (s : BB) (w : BitVec 64) (f : σ → List (BitVec 8) → σ) (acc : σ),
+      8 ≤ b → s.buf.length = b → s.pos ≤ b → b < 2 ^ 64 →
+      CC.Gen.BlockBufferSrc.bb_len64_padding_be b s.buf s.pos w f acc = CC.Src.bbOut (len64PaddingBe b s w f acc)) ∧
+    (∀ {σ : Type} (b : Nat) (s : BB) (w : BitVec 64) (f : σ → List (BitVec 8) → σ) (acc : σ),
+      len64PaddingBe b s w f acc = CC.Src.lenPadding b s 8 (toBe64 w) f acc) ∧
+    (∀ {σ : Type} (b : Nat) (s : BB) (w : BitVec 64) (f : σ → List (BitVec 8) → σ) (acc : σ),
+      8 ≤ b → s.buf.length = b → s.pos ≤ b → b < 2 ^ 64 →
+      CC.Gen.BlockBufferSrc.bb_len64_padding_le b s.buf s.pos w f acc
+        = CC.Src.bbOut (CC.Src.lenPadding b s 8 (toLe64 w) f acc)) ∧
+    (∀ {σ : Type} (b : Nat) (s : BB) (w : BitVec 128) (f : σ → List (BitVec 8) → σ) (acc : σ),
+      16 ≤ b → s.buf.length = b → s.pos ≤ b → b < 2 ^ 64 →
+      CC.Gen.BlockBufferSrc.bb_len128_padding_be b s.buf s.pos w f acc
+        = CC.Src.bbOut (CC.Src.lenPadding b s 16 (toBeBytes w 16) f acc)) ∧
+    (∀ (b : Nat) (s : BB), s.buf.length = b →
+      CC.Gen.BlockBufferSrc.bb_pad_with_ZeroPadding b s.buf s.pos = CC.Src.padOut s (padWithZero b s)) ∧
+    (∀ (b : Nat) (s : BB), s.buf.length = b → b < 2 ^ 64 →
+      CC.Gen.BlockBufferSrc.bb_pad_with_Iso7816 b s.buf s.pos = CC.Src.padOut s (padWithIso7816 b s)) ∧
+    (CC.Gen.BlockBufferSrc.bb_methods
+      = ["input_block", "input_blocks", "input_lazy", "digest_pad", "len64_padding_be", "len64_padding_le",
+         "len128_padding_be", "pad_with", "size", "position", "remaining", "reset"] ∧
+     CC.Gen.BlockBufferSrc.bb_untranslated = ["input_blocks"] ∧
+     CC.Gen.BlockBufferSrc.bb_struct_fields = ["buffer", "pos"]) :=
+  ⟨CC.Src.src_bb_clean, CC.Src.src_bb_size, CC.Src.src_bb_position, CC.Src.src_bb_remaining, CC.Src.src_bb_reset,
+   CC.Src.src_bb_input_block, CC.Src.src_bb_input_lazy, CC.Src.src_bb_digest_pad, CC.Src.src_bb_len64_padding_be,
+   CC.Src.len64PaddingBe_eq_lenPadding, CC.Src.src_bb_len64_padding_le, CC.Src.src_bb_len128_padding_be,
+   CC.Src.src_bb_pad_with_ZeroPadding, CC.Src.src_bb_pad_with_Iso7816, CC.Src.src_bb_inventory⟩
+
+/-- **Source tie, `digest` / `cipher` provided methods.**  Users and the harness do not call `finalize_into_dirty`, `Reset::reset`
+    or `try_apply_keystream` directly but the PROVIDED methods of the `digest` 0.9 / `cipher` 0.3 traits.  They are translated
+    on every run from the crate sources pinned in `/repo/Cargo.lock` (required trait methods become `Out`-valued parameters,
+    one bind per call in program order), and this theorem (1) pins each composition — `finalize_into_reset` = dirty
+    finalisation THEN `reset` of the same object; `Digest::finalize_reset` = finalisation of a CLONE, then `reset` of the
+    original; `Digest::digest` = `default`, one `update`, `finalize_fixed`; `apply_keystream` / `seek` / `current_pos` =
+    `try_*(..).unwrap()` — and the method inventories of the traits / blanket impls, and (2) shows for the four hash models that
+    the functions the driver and the C04–C08 theorems use (`finalizeReset`, `finalize`, `digest`) ARE these compositions of
+    the models' `finalize_into_dirty` / `reset` / `update` / `default` (which phase 3 ties to `/repo`), for BOTH routes to
+    "finalize and reset" (harness ops `finreset` and `finreset2`).  Individual facts: lean/CC/Buffer/SrcTraits.lean. -/
+theorem source_traits_match :
+    (type_of% @CC.Src.src_traits_inventory) ∧
+    (type_of% @CC.Src.src_digest_finalize_into) ∧
+    (type_of% @CC.Src.src_digest_finalize_into_reset) ∧
+    (type_of% @CC.Src.src_digest_finalize_fixed) ∧
+    (type_of% @CC.Src.src_digest_finalize_fixed_reset) ∧
+    (type_of% @CC.Src.src_digest_Update_chain) ∧
+    (type_of% @CC.Src.src_digest_Digest_new) ∧
+    (type_of% @CC.Src.src_digest_Digest_update) ∧
+    (type_of% @CC.Src.src_digest_Digest_chain) ∧
+    (type_of% @CC.Src.src_digest_Digest_finalize) ∧
+    (type_of% @CC.Src.src_digest_Digest_finalize_reset) ∧
+    (type_of% @CC.Src.src_digest_Digest_reset) ∧
+    (type_of% @CC.Src.src_digest_Digest_output_size) ∧
+    (type_of% @CC.Src.src_digest_Digest_digest) ∧
+    (type_of% @CC.Src.src_cipher_apply_keystream) ∧
+    (type_of% @CC.Src.src_cipher_current_pos) ∧
+    (type_of% @CC.Src.src_cipher_seek) ∧
+    (type_of% @CC.Src.src_blake_finalize_fixed_reset) ∧
+    (type_of% @CC.Src.src_blake_Digest_finalize_reset) ∧
+    (type_of% @CC.Src.src_blake_Digest_finalize) ∧
+    (type_of% @CC.Src.src_blake_Digest_digest) ∧
+    (type_of% @CC.Src.src_skein_finalize_fixed_reset) ∧
+    (type_of% @CC.Src.src_skein_Digest_finalize_reset) ∧
+    (type_of% @CC.Src.src_skein_Digest_finalize) ∧
+    (type_of% @CC.Src.src_skein_Digest_digest) ∧
+    (type_of% @CC.Src.src_jh_finalize_fixed_reset) ∧
+    (type_of% @CC.Src.src_jh_Digest_finalize_reset) ∧
+    (type_of% @CC.Src.src_jh_Digest_finalize) ∧
+    (type_of% @CC.Src.src_jh_Digest_digest) ∧
+    (type_of% @CC.Src.src_groestl_finalize_fixed_reset) ∧
+    (type_of% @CC.Src.src_groestl_Digest_finalize_reset) ∧
+    (type_of% @CC.Src.src_groestl_Digest_finalize) ∧
+    (type_of% @CC.Src.src_groestl_Digest_digest) :=
+  ⟨@CC.Src.src_traits_inventory,
+   @CC.Src.src_digest_finalize_into,
+   @CC.Src.src_digest_finalize_into_reset,
+   @CC.Src.src_digest_finalize_fixed,
+   @CC.Src.src_digest_finalize_fixed_reset,
+   @CC.Src.src_digest_Update_chain,
+   @CC.Src.src_digest_Digest_new,
+   @CC.Src.src_digest_Digest_update,
+   @CC.Src.src_digest_Digest_chain,
+   @CC.Src.src_digest_Digest_finalize,
+   @CC.Src.src_digest_Digest_finalize_reset,
+   @CC.Src.src_digest_Digest_reset,
+   @CC.Src.src_digest_Digest_output_size,
+   @CC.Src.src_digest_Digest_digest,
+   @CC.Src.src_cipher_apply_keystream,
+   @CC.Src.src_cipher_current_pos,
+   @CC.Src.src_cipher_seek,
+   @CC.Src.src_blake_finalize_fixed_reset,
+   @CC.Src.src_blake_Digest_finalize_reset,
+   @CC.Src.src_blake_Digest_finalize,
+   @CC.Src.src_blake_Digest_digest,
+   @CC.Src.src_skein_finalize_fixed_reset,
+   @CC.Src.src_skein_Digest_finalize_reset,
+   @CC.Src.src_skein_Digest_finalize,
+   @CC.Src.src_skein_Digest_digest,
+   @CC.Src.src_jh_finalize_fixed_reset,
+   @CC.Src.src_jh_Digest_finalize_reset,
+   @CC.Src.src_jh_Digest_finalize,
+   @CC.Src.src_jh_Digest_digest,
+   @CC.Src.src_groestl_finalize_fixed_reset,
+   @CC.Src.src_groestl_Digest_finalize_reset,
+   @CC.Src.src_groestl_Digest_finalize,
+   @CC.Src.src_groestl_Digest_digest⟩
 
 end CC.Thm.C08
